@@ -1004,6 +1004,38 @@ def rule_r11(repo, run):
                       "after a `,` the loop goes back to `while self.token.typ != %r`: when the next token is the closer the list "
                       "ends normally, so `(a,)` / `<T,>` is silently accepted" % closer, dm.loc(lp))
     run.floor(R, "separator loops of the parser", n, 5)
+    # a parser method that begins by *consuming* a token it has not looked at ("consume LPAREN peeked at in caller") relies
+    # on every caller having seen that token
+    am_ = repo.module("ast")
+    consumers = {}
+    for q, fn in sorted(dm.functions().items()):
+        body = [st for st in fn.body if not (isinstance(st, ast.Expr) and isinstance(st.value, ast.Constant))]
+        body = [st for st in body if not (isinstance(st, ast.Expr) and isinstance(st.value, ast.Call)
+                                          and (pyflow.call_name(st.value) or "") == "self.enter")]
+        first = next((st for st in body if not (isinstance(st, ast.Assign) and isinstance(st.value, (ast.List, ast.Dict, ast.Constant)))), None)
+        if isinstance(first, ast.Expr) and isinstance(first.value, ast.Call) and (pyflow.call_name(first.value) or "") == "self.next":
+            consumers[q.split(".")[-1]] = q
+    if "parameter_list" not in consumers:
+        raise AnalysisError("C17.R11: Parser.parameter_list no longer starts by consuming the token its caller peeked at")
+    ncall = 0
+    for mod_ in (dm, am_):
+        for q, fn in sorted(mod_.functions().items()):
+            for c in ast.walk(fn):
+                if isinstance(c, ast.Call) and isinstance(c.func, ast.Attribute) and c.func.attr in consumers:
+                    ncall += 1
+                    recv = str(mod_.seg(c.func.value))
+                    seen = False
+                    tests = [t for t, pol in pyflow.dominating_tests(c, stop=fn) if pol] + \
+                            [t for t, pol in pyflow.early_exit_guards(fn, c)]
+                    for t in tests:
+                        txt = str(mod_.seg(t))
+                        if ("%s.peek(" % recv) in txt or ("%s.token.typ" % recv) in txt or ("%s.have(" % recv) in txt:
+                            seen = True
+                    run.check(R, "%s.%s:%s()" % (mod_.name, q, c.func.attr), seen,
+                              "%s() consumes the current token without looking at it, and this caller has not looked either: "
+                              "`fortran_generic: - decl: int long a)` loses its first token and is accepted" % c.func.attr,
+                              mod_.loc(c))
+    run.floor(R, "calls of token-consuming parser methods", ncall, 3)
     # the value after `=`
     ini = dm.func("Parser.initializer")
     chain = [i for i in ini.body if isinstance(i, ast.If)]
@@ -1053,7 +1085,7 @@ def _type_guarded(mod, fn, use, var, typename):
             if isinstance(c, ast.Call) and isinstance(c.func, ast.Name) and c.args and str(mod.seg(c.args[0])) == var:
                 if typename is None and c.func.id == "hasattr":
                     return True
-                if c.func.id == "isinstance" and len(c.args) == 2 and typename in str(mod.seg(c.args[1])):
+                if typename and c.func.id == "isinstance" and len(c.args) == 2 and typename in str(mod.seg(c.args[1])):
                     return True
     # normalisation before the use: `if not isinstance(v, str): v = str(v)`
     for i in ast.walk(fn):
